@@ -96,7 +96,7 @@ theorem Bay.trackCpu_total {b : Bay} {sel : Nat} {raws : List Nat} {dflt : Value
   have hlen1 : b1.chans.length = b.chans.length + 1 := by rw [hb1]; simp [Bay.register]
   obtain ⟨b2, h2, _, m', hm'⟩ := Bay.setInputs_total raws b1 _ 0 _ hmx
     (by intro c hc; have := hr c hc; simp only [hout]; rw [hlen1]; omega)
-    (by intro j hj; simp [List.getElem?_replicate, hj])
+    (by intro j hj; simp [hj])
   unfold Bay.trackCpu
   simp only [h1, h2, Bay.muxSetDefault, hm']
   exact ⟨_, rfl⟩
